@@ -771,6 +771,19 @@ fn probe_bare_obj(o: &mut Outcome) {
     o.probes.push(json!({"id": "TYPES-BARE-OBJ-PAREN", "fails": fails, "what": "`(for<'a> Tr<'a>) + Send` (trait object without `dyn`) loses the parentheses of its first bound", "detail": {"src": src, "out": format!("{:?}", r)}}));
 }
 
+/// `RF.Types.dropCommaGt` on an encoded token list: the trailing `,` of a vertical generic list
+fn drop_comma_gt(toks: &str) -> String {
+    let items: Vec<&str> = toks.split(',').collect();
+    let mut out: Vec<&str> = vec![];
+    for (i, t) in items.iter().enumerate() {
+        if *t == "p:2c" && items.get(i + 1) == Some(&"p:3e") {
+            continue;
+        }
+        out.push(t);
+    }
+    out.join(",")
+}
+
 /// the same trees inside items, through the whole formatter
 fn e2e(o: &mut Outcome, rng: &mut Rng, thorough: bool) {
     let mut jobs_v: Vec<Job> = vec![];
@@ -809,7 +822,7 @@ fn e2e(o: &mut Outcome, rng: &mut Rng, thorough: bool) {
             }
             Status::Ok => {
                 o.count("e2e:formatted");
-                o.push("oracle", "tok.equiv", format!("tok.equiv - {} {}", toks::encode_tokens(&j.src, false), toks::encode_tokens(&r.out, false)), "ok".into(), format!("e2e {:?}: {}", j.cfg, j.src), r.out != j.src);
+                o.push("oracle", "tok.equiv", format!("tok.equiv - {} {}", drop_comma_gt(&toks::encode_tokens(&j.src, false)), drop_comma_gt(&toks::encode_tokens(&r.out, false))), "ok".into(), format!("e2e {:?}: {}", j.cfg, j.src), r.out != j.src);
             }
             Status::Panic(m) => o.direct_failures.push(json!({"sig": "types-e2e-panic", "src": j.src, "cfg": format!("{:?}", j.cfg), "panic": m})),
             Status::Timeout => o.count("e2e:timeout"),
